@@ -41,7 +41,8 @@ ALPHABET = "ab \n\t-"
 UBLANKS = ["\xa0", "\u2003", "\u2009", "\u3000", "\x1c", "\x1f", "\x85", "\u2028", "\u200b"]   # the last is NOT a blank
 WORDS = ["a", "I", "to", "the", "item", "number", "hello", "world", "longerword", "averyveryverylongword", "hy-phen",
          "semi-detached", "mother-in-law", "e.g.", "1)", "[x]", "--", "a--b", "-x", "x-", "---", "q?", "Zz", "1-2-3",
-         "\xe9t\xe9", "na\xefve-ish", "\u4e2d\u6587", "a\u200bb"]
+         "\xe9t\xe9", "na\xefve-ish", "\u4e2d\u6587", "a\u200bb",
+         "https://example.org/a-very-long/path-with-hyphens/index.html", "ftp://h/x", "see://"]
 
 
 # ------------------------------------------------------------------ implementation / model / specification
